@@ -164,7 +164,7 @@ def subj_selector(b, kind, pattern):
         p["k"] = 1 if min(min(XA["shape"]), min(XB["shape"])) < 5 else rng.choice([1, 1, 2])
         p["recompute_every"] = rng.choice([0, 1, 1, 2])
     if fam == "voronoi":
-        if (pattern == "single" and rng.random() < 0.5) or (pattern in ("refit", "fault") and rng.random() < 0.3):
+        if (pattern == "single" and rng.random() < 0.5) or (pattern in ("refit", "fault") and rng.random() < 0.3) or (pattern == "repeat" and rng.random() < 0.35):
             p["n_trial_calculation"] = rng.randint(1, 4)  # calibrated default
         else:
             p["full_fraction"] = rng.choice([1e-9, 0.1, 0.3, 0.5, 0.9, 1.0])
